@@ -71,6 +71,13 @@ class GridKernel(Kernel):
         if hasattr(self, "_cached_kernel_mat"):
             del self._cached_kernel_mat
 
+    def __getstate__(self):
+        # The eval-mode cache may hold non-leaf tensors, which do not support the deepcopy protocol.
+        # It is recomputed on demand, so copies (deepcopy / pickle) are made without it.
+        state = super().__getstate__().copy()
+        state.pop("_cached_kernel_mat", None)
+        return state
+
     def register_buffer_list(self, base_name, tensors):
         """Helper to register several buffers at once under a single base name"""
         for i, tensor in enumerate(tensors):
